@@ -16,7 +16,7 @@ static ABTI_mutex mx, mx2;
 static void setup(void)
 {
     vf_lock_held = 0;
-    vf_mon_held = 1; vf_mon_mutex = &mx; /* the caller holds the user mutex */
+    vf_mon_held = 1; vf_mon_owner = 1; vf_mon_mutex = &mx; /* the caller holds (and, for a recursive mutex, owns) the user mutex */
     lp_ABTI_local = NULL;
     VF_ASSUME(cv.p_waiter_mutex == NULL || cv.p_waiter_mutex == &mx || cv.p_waiter_mutex == &mx2);
     VF_ASSUME(vf_clock < 100 && vf_acquires < 100 && vf_releases < 100 && vf_wl_waits < 100 && vf_mon_locks < 100 && vf_mon_unlocks < 100 && vf_wl_signals < 100 && vf_wl_bcasts < 100);
@@ -34,6 +34,7 @@ static void setup(void)
         VF_ASSERT(vf_t_acquire < vf_t_mon_unlock && vf_t_mon_unlock < vf_t_wl_wait && vf_t_wl_wait < vf_t_release,          \
                   "atomic release-and-wait: cond lock held from before the mutex unlock until the caller is enqueued");  \
         VF_ASSERT(vf_mon_held == 1 && vf_mon_locks == l0 + 1 && vf_t_release < vf_t_mon_lock && vf_lock_held == 0, "returns holding the mutex (re-acquired after the wait), cond lock free"); \
+        VF_ASSERT(vf_mon_owner == 1, "... and owning it: the release and the re-acquisition go through the same (recursion-aware) pair of routines, so a recursive mutex has its owner again"); \
     }
 
 void h_cond_wait(void)
